@@ -497,9 +497,16 @@ func ruleP04Steps(p *Prog, r *Report) {
 	if !r.anchorFn(rule, atTime, "AtTime") {
 		return
 	}
-	isCmdTime := func(v ssa.Value) bool {
-		// the command's time: result 0 of AtTime(now, config) (possibly through the variable it is stored in)
+	var isCmdTime func(v ssa.Value) bool
+	isCmdTime = func(v ssa.Value) bool {
+		// the command's time: result 0 of AtTime(now, config) (possibly through the variable it is
+		// stored in), or that time moved to another day with Plus (the shift itself is P17's business)
 		v = strip(v)
+		if n, recv, _, c := methodCall(v); n == "Plus" && c != nil && recv != nil {
+			if _, idx := callOf(v); idx == 0 {
+				return isCmdTime(recv)
+			}
+		}
 		if u, ok := v.(*ssa.UnOp); ok && u.Op == token.MUL {
 			if cell := cellOf(u.X); cell != nil {
 				for _, s := range storesTo(cell) {
@@ -874,9 +881,7 @@ func ruleP04Reject(p *Prog, r *Report) {
 		}
 		rej := iff.Block().Succs[rejectSucc]
 		msg := ""
-		if len(rej.Preds) != 1 {
-			msg = "the rejecting edge is shared"
-		} else {
+		{
 			msg = rejectComplete(rej, func(ret *ssa.Return) string {
 				if p.nilnessAt(ret.Block(), retResult(ret, 0), 0) != nnNonNil {
 					return "returns nil on the rejecting edge"
